@@ -6,6 +6,7 @@ import types
 
 from .. import astutil as A
 from ..fa import FA
+from ..cfg import CFG
 from ..loader import AnalysisError
 
 CH = "code_hash"
@@ -4734,6 +4735,72 @@ def check_dotted_names(ck, R):
 
     # the locals that stand for that set
     RESNAMES = {d.name for ds in fa.df.gen.values() for d in ds if d.kind == "assign" and d.value is not None and "." not in d.name and is_res(d.value, d.node)}
+
+    # Every piece of the function's own source is a place where it can name something it depends on: the body, and the `def`
+    # line as well (a helper used only as a parameter default, a decorator, ...: fn_code_hash describes a function-valued
+    # default by name only, so the name has to be a dependency).  So (1) on every path on which the name set is taken from
+    # the visitor, the visitor was run over the WHOLE parse tree of the source, not over a selection of its sub-trees, and
+    # (2) no handler of the visitor stops the descent below a node kind that has children.
+    def whole_tree(e, at):
+        """does `e` stand, in all its alternatives, for the complete result of parsing the function's source?"""
+        alts_ = _alternatives(fa, e, at)
+        for (x, a_) in alts_:
+            x = fa.expand(x, a_)
+            if not (isinstance(x, ast.Call) and A.call_attr(x) == "parse" and len(x.args) >= 1
+                    and any(isinstance(c_, ast.Call) and A.call_attr(c_) == "getsource" for c_ in ast.walk(x.args[0]))):
+                return False
+        return bool(alts_)
+
+    def on_visitor(c):
+        r_ = A.call_recv(c)
+        if r_ is None or not fa.nodes(c):
+            return False
+        x = fa.expand(r_, fa.nodes(c)[0])
+        return isinstance(x, ast.Call) and A.call_attr(x) == cls.name
+
+    runs = [c for c in fa.calls() if A.call_attr(c) in ("visit", "generic_visit") and on_visitor(c)]
+    whole = [c for c in runs if A.call_attr(c) == "visit" and len(c.args) == 1 and whole_tree(c.args[0], fa.nodes(c)[0])]
+    whole_nodes = set(fa.nodes_all(whole))
+    takes = []   # where the name set is taken out of the visitor
+    for st in fa.stmts():
+        for nid in fa.nodes(st):
+            for sub in (fa.cfg._own_exprs(fa.cfg.node(nid)) if fa.cfg.node(nid).ast is not None else ()):
+                if isinstance(sub, ast.Attribute) and isinstance(sub.ctx, ast.Load) and sub.attr in ACC and is_res(sub, nid):
+                    takes.append((st, nid))
+    bad_take = [(st, nid) for (st, nid) in takes if not fa.cfg.must_pass(whole_nodes, nid)]
+    partial = [c for c in runs if c not in whole]
+    okw = bool(takes) and not bad_take
+    ck.ob(R, fa.key(None, "whole-source-visited"), okw, "the names are taken after the visitor has gone over the whole parse tree of the source" if okw else
+          ("the name set is read from the visitor on a path on which the visitor has not been run over the whole parse tree of the "
+           "function's source%s: names that occur only in the skipped parts (a helper or global used only as a parameter default, in a "
+           "decorator or an annotation) get no hash rule, so editing them keeps the version and the stored result is served, and a "
+           "memento function named only there is missing from the closure"
+           % ((" (only over `%s`)" % A.short(partial[0].args[0], 50)) if partial and partial[0].args else "")),
+          fa.where(bad_take[0][0] if bad_take else None))
+    pruned = []
+    for (nm_, m_) in sorted(methods.items()):
+        if not (nm_.startswith("visit_") or nm_ in ("visit", "generic_visit")) or nm_ in ("visit_Name", "visit_Constant"):
+            continue   # Name / Constant nodes have no sub-expressions
+        pn = m_.args.args[1].arg if len(m_.args.args) > 1 else None
+        me_ = m_.args.args[0].arg if m_.args.args else "self"
+        g = CFG(m_)
+        down = set()
+        for c in ast.walk(m_):
+            if not (isinstance(c, ast.Call) and len(c.args) >= 1 and isinstance(c.args[-1], ast.Name) and c.args[-1].id == pn):
+                continue
+            r_ = A.call_recv(c)
+            if nm_.startswith("visit_"):
+                # self.generic_visit(node) (or the base class's, called explicitly)
+                hit = A.call_attr(c) == "generic_visit" and r_ is not None and (A.norm(r_) == me_ or A.norm(r_).startswith("super(") or A.norm(r_).endswith("NodeVisitor"))
+            else:
+                hit = A.call_attr(c) == nm_ and r_ is not None and (A.norm(r_).startswith("super(") or A.norm(r_).endswith("NodeVisitor"))
+            if hit:
+                down |= set(g.nodes_of(c))
+        if not g.must_pass(down, g.exit):
+            pruned.append(nm_)
+    ck.ob(R, fa.key(None, "no-subtree-pruned"), not pruned, "every handler of the visitor goes on below the node it handles" if not pruned else
+          "the visitor's %s can return without descending into the node's children (generic_visit): the names inside those "
+          "sub-trees are never recorded, so what the function refers to there is neither hashed nor in the closure" % ", ".join(pruned), fa.where())
 
     def local_sources(e, at, depth=6):
         """where the elements of a set-valued expression come from (attribute chains)"""
